@@ -1,27 +1,36 @@
 #!/usr/bin/env python3
 """Run every seeded defect (seeded/<id>/patch.diff) against its checks and record the outcome in seeded/<id>/meta.json.
+Works on a scratch git worktree of /repo (so /repo itself stays untouched and usable), removed afterwards.
 usage: tools/seedsweep.py [id ...]"""
-import json, os, subprocess, sys, glob, re
+import json, os, subprocess, sys, glob, re, shutil
 V = "/verif"
+WT = "/tmp/sweep-repo-%d" % os.getpid()
 ids = sys.argv[1:] or sorted(os.path.basename(d) for d in glob.glob(V + "/seeded/*") if os.path.exists(d + "/meta.json"))
-for sid in ids:
-    d = os.path.join(V, "seeded", sid)
-    meta = json.load(open(d + "/meta.json"))
-    if subprocess.run(["git", "-C", "/repo", "diff", "--quiet"]).returncode != 0:
-        print("/repo dirty"); sys.exit(3)
-    if subprocess.run(["git", "-C", "/repo", "apply", d + "/patch.diff"]).returncode != 0:
-        print(sid, "PATCH DOES NOT APPLY"); meta["results"] = {"error": "patch does not apply to current /repo HEAD"}; json.dump(meta, open(d + "/meta.json", "w"), indent=1); continue
-    res = {}
-    try:
+subprocess.run(["git", "-C", "/repo", "worktree", "add", "-q", "--detach", WT, "HEAD"], check=True)
+env = dict(os.environ, VERIF_REPO=WT, VERIF_BUILD="/tmp/sweep-build-%d" % os.getpid(), VERIF_EVIDENCE_DIR="/tmp/sweep-build-%d/evidence" % os.getpid(), VERIF_REPLAY_DIR="/tmp/sweep-build-%d/replays" % os.getpid())
+head = subprocess.run(["git", "-C", "/repo", "rev-parse", "--short", "HEAD"], stdout=subprocess.PIPE, text=True).stdout.strip()
+try:
+    for sid in ids:
+        d = os.path.join(V, "seeded", sid)
+        meta = json.load(open(d + "/meta.json"))
+        subprocess.run(["git", "-C", WT, "checkout", "-q", "--", "."])
+        if subprocess.run(["git", "-C", WT, "apply", d + "/patch.diff"]).returncode != 0:
+            print(sid, "PATCH DOES NOT APPLY"); meta["results"] = {"error": "patch does not apply to /repo HEAD " + head}; json.dump(meta, open(d + "/meta.json", "w"), indent=1); continue
+        res = {}
         for pid in meta["checks"]:
-            p = subprocess.run(["./check", pid], cwd=V, stdout=subprocess.PIPE, stderr=subprocess.STDOUT, text=True)
+            p = subprocess.run(["./check", pid], cwd=V, env=env, stdout=subprocess.PIPE, stderr=subprocess.STDOUT, text=True)
             sigs = re.findall(r"^  signature: (.*)$", p.stdout, re.M)
+            inc = re.findall(r"^INCONCLUSIVE.*reason=(.*)$", p.stdout, re.M)
             res[pid] = {"exit": p.returncode, "violation_signatures": sigs[:8]}
-            print(sid, pid, "exit", p.returncode, sigs[:3])
-    finally:
-        subprocess.run(["git", "-C", "/repo", "checkout", "--", "."])
-    meta["results"] = res
-    meta["detected"] = any(r["exit"] == 1 for r in res.values())
-    meta["ran"] = "git -C /repo apply seeded/%s/patch.diff; " % sid + "; ".join("./check %s" % p for p in meta["checks"]) + "; git -C /repo checkout -- ."
-    meta["repo_head"] = subprocess.run(["git", "-C", "/repo", "rev-parse", "--short", "HEAD"], stdout=subprocess.PIPE, text=True).stdout.strip()
-    json.dump(meta, open(d + "/meta.json", "w"), indent=1)
+            if inc:
+                res[pid]["inconclusive"] = inc[:3]
+            print(sid, pid, "exit", p.returncode, sigs[:3], flush=True)
+        meta["results"] = res
+        meta["detected"] = any(r["exit"] == 1 for r in res.values())
+        meta["detected_by"] = [p for p, r in res.items() if r["exit"] == 1]
+        meta["ran"] = "git apply seeded/%s/patch.diff (on a scratch worktree of /repo HEAD %s); " % (sid, head) + "; ".join("./check %s" % p for p in meta["checks"]) + "; patch undone"
+        meta["repo_head"] = head
+        json.dump(meta, open(d + "/meta.json", "w"), indent=1)
+finally:
+    subprocess.run(["git", "-C", "/repo", "worktree", "remove", "--force", WT])
+    shutil.rmtree(env["VERIF_BUILD"], ignore_errors=True)
